@@ -1,54 +1,330 @@
 //go:build verif
 
+// C20: initialisation is idempotent and never duplicates or clobbers existing state.
+// The step list of `crossplane core init` (cmd/crossplane/core/init.go, webhooks enabled) is
+// rebuilt from the exported constructors of internal/initializer and run against the simulated
+// API server: 1..3 times in sequence from many initial stores, and - for EVERY API-call index
+// of a run - aborted there by an API error (500 / timeout / applied-but-error-returned) and
+// then rerun cleanly. Six oracles written from the property text judge the resulting stores.
 package main
 
 import (
 	"fmt"
 	"os"
-	"runtime/pprof"
-	"time"
+	"runtime"
+	"runtime/debug"
+	"sort"
+	"strings"
+	"sync"
 
+	"github.com/crossplane/crossplane/verifh/kit"
 	"github.com/crossplane/crossplane/verifh/sim"
-	"github.com/crossplane/crossplane/verifh/xrk"
 )
 
+var faultOutcomes = []sim.Outcome{sim.ServerError, sim.Timeout, sim.ErrorAfter}
+
+// base is what the fault-free sequence of a scenario leaves for its aborted-run cases.
+type base struct {
+	sc       *scenario
+	df       *dirFacts
+	s0       snap
+	a1       snap // store after the first fault-free run
+	a1Masked snap
+	calls    int // API calls of the first fault-free run
+	ok       bool
+}
+
+func traceLines(w *sim.World, from, max int) []string {
+	var out []string
+	evs := w.Log(from)
+	if len(evs) > max {
+		out = append(out, fmt.Sprintf("... %d earlier calls ...", len(evs)-max))
+		evs = evs[len(evs)-max:]
+	}
+	for i := range evs {
+		out = append(out, evs[i].Short())
+	}
+	return out
+}
+
+func report(c *kit.Ctx, sc *scenario, caseName string, f findings, extra map[string]any) {
+	for _, x := range f {
+		wit := map[string]any{"scenario": sc}
+		for k, v := range extra {
+			wit[k] = v
+		}
+		c.Violate(x.Key, caseName, x.What, wit)
+	}
+}
+
+// finalChecks runs O2 (against the initial store), O3, O4, O5 and O6 on a final store.
+func finalChecks(c *kit.Ctx, f *findings, b *base, final snap) {
+	sc := b.sc
+	checkKept(f, sc.Cfg, b.s0, final, "pre-existing")
+	c.Count("certificates_verified", int64(checkCerts(f, sc.Cfg, b.s0, final)))
+	checkPackages(f, sc.Cfg, sc.Installed, b.s0, final)
+	c.Count("default_objects_compared", int64(checkDefaults(f, b.s0, final)))
+	c.Count("ca_bundles_checked", int64(checkBundles(f, sc.Cfg, b.df, final)))
+}
+
+// sequence is the fault-free part of a scenario: runs 1..3 from the initial store.
+func sequence(c *kit.Ctx, sc *scenario) *base {
+	b := &base{sc: sc}
+	caseName := "scn/" + sc.Name + "/seq"
+	df, err := readDirFacts(sc.Cfg.crdDir, sc.Cfg.whDir)
+	if err != nil {
+		c.Inconclusive("cannot read yaml directories: " + err.Error())
+		return b
+	}
+	b.df = df
+	w := sc.world.Clone()
+	b.s0 = snap(w.Snapshot())
+	var f findings
+	var snaps []snap
+	var steps []string
+	for i := 1; i <= 3; i++ {
+		r := runInit(w, sc.Cfg, -1, sim.OK)
+		c.Count("runs", 1)
+		c.Count("runs_fault_free", 1)
+		phase := "first-run"
+		if i > 1 {
+			phase = "rerun"
+		}
+		steps = append(steps, fmt.Sprintf("run %d: calls=%d err=%v", i, r.Calls, r.Err))
+		if r.Panic != nil {
+			f.add("init-panic:"+phase, "run %d panicked: %v", i, r.Panic)
+			break
+		}
+		if r.Err != nil {
+			f.add("init-error:"+phase+":"+errKey(r.Err), "fault-free run %d returned an error: %v", i, r.Err)
+			break
+		}
+		s := snap(w.Snapshot())
+		snaps = append(snaps, s)
+		if i == 1 {
+			b.calls, b.a1 = r.Calls, s
+		}
+		c.Eval(fmt.Sprintf("%s|seq|run%d", sc.Name, i), len(b.s0) > 0 || i > 1)
+	}
+	var diff []string
+	if len(snaps) == 3 {
+		b.ok = true
+		n1 := normalize(snaps[0], false)
+		for i := 1; i < 3; i++ {
+			if kind, lines := diffSnaps(n1, normalize(snaps[i], false)); kind != "" {
+				f.add("O1-rerun-differs:"+kind, "store after run %d differs from the store after run 1: %s", i+1, strings.Join(lines, "; "))
+				diff = lines
+			}
+			checkKept(&f, sc.Cfg, snaps[i-1], snaps[i], "rerun")
+		}
+		finalChecks(c, &f, b, snaps[0])
+		finalChecks(c, &f, b, snaps[2])
+		b.a1Masked = normalize(b.a1, true)
+	}
+	report(c, sc, caseName, f, map[string]any{"steps": steps, "diff": diff})
+	if len(f) == 0 && c.WantSample() && len(b.s0) > 0 && len(sc.Installed) > 0 {
+		c.Sample(map[string]any{"case": caseName, "scenario": sc, "steps": steps,
+			"packages_before": pkgsIn(b.s0), "packages_after": pkgsIn(snaps[len(snaps)-1])})
+	}
+	return b
+}
+
+type faultCase struct {
+	b   *base
+	k   int
+	out sim.Outcome
+}
+
+func (fc faultCase) name() string {
+	return fmt.Sprintf("scn/%s/k%d/%s", fc.b.sc.Name, fc.k, fc.out)
+}
+
+// aborted is one aborted run followed by a clean rerun.
+func aborted(c *kit.Ctx, fc faultCase) {
+	b, sc := fc.b, fc.b.sc
+	w := sc.world.Clone()
+	var f findings
+	ra := runInit(w, sc.Cfg, fc.k, fc.out)
+	c.Count("runs", 1)
+	c.Count("runs_aborted", 1)
+	c.Count("aborted_"+fc.out.String(), 1)
+	hit := false
+	for _, e := range w.Log(ra.LogFrom) {
+		if e.Injected != "" {
+			hit = true
+			c.Count("abort_at_"+e.Verb+"_"+e.Key.Kind, 1)
+		}
+	}
+	if !hit {
+		c.Count("fault_not_reached", 1)
+	}
+	if ra.Panic != nil {
+		f.add("init-panic:aborted-run", "run aborted at call %d (%s) panicked: %v", fc.k, fc.out, ra.Panic)
+	}
+	if hit && ra.Err == nil && ra.Panic == nil {
+		c.Count("aborted_run_returned_nil", 1)
+	}
+	m := snap(w.Snapshot())
+	abortTrace := traceLines(w, ra.LogFrom, 12)
+	rb := runInit(w, sc.Cfg, -1, sim.OK)
+	c.Count("runs", 1)
+	c.Count("runs_clean_after_abort", 1)
+	var diff []string
+	switch {
+	case rb.Panic != nil:
+		f.add("init-panic:rerun-after-abort", "clean rerun after abort at call %d (%s) panicked: %v", fc.k, fc.out, rb.Panic)
+	case rb.Err != nil:
+		f.add("init-error:rerun-after-abort:"+errKey(rb.Err), "clean rerun after abort at call %d (%s) returned an error: %v", fc.k, fc.out, rb.Err)
+	default:
+		final := snap(w.Snapshot())
+		if kind, lines := diffSnaps(b.a1Masked, normalize(final, true)); kind != "" {
+			f.add("O1-abort-rerun-differs:"+kind, "store after (abort at call %d with %s, clean rerun) differs from the fault-free result (key material masked): %s", fc.k, fc.out, strings.Join(lines, "; "))
+			diff = lines
+		}
+		checkKept(&f, sc.Cfg, m, final, "after-abort")
+		finalChecks(c, &f, b, final)
+	}
+	c.Eval(fmt.Sprintf("%s|k%d|%s", sc.Name, fc.k, fc.out), hit && (len(b.s0) > 0 || fc.k > 0))
+	report(c, sc, fc.name(), f, map[string]any{"abortAtCall": fc.k, "outcome": fc.out.String(), "abortedRunError": fmt.Sprint(ra.Err),
+		"abortedRunLastCalls": abortTrace, "diff": diff})
+	if len(f) == 0 && hit && fc.out == sim.ErrorAfter && fc.k > 0 && c.WantSample() {
+		c.Sample(map[string]any{"case": fc.name(), "initialStoreClass": sc.Class, "abortAtCall": fc.k, "outcome": fc.out.String(),
+			"abortedRunError": fmt.Sprint(ra.Err), "abortedRunLastCalls": abortTrace, "rerunCalls": rb.Calls})
+	}
+}
+
+func wantScenario(c *kit.Ctx, name string) bool {
+	p := "scn/" + name
+	return c.Only == "" || c.Only == p || strings.HasPrefix(c.Only, p+"/")
+}
+
+func parallel(n int, items int, fn func(i int)) {
+	var wg sync.WaitGroup
+	ch := make(chan int)
+	for wk := 0; wk < n; wk++ {
+		wg.Add(1)
+		go func() {
+			defer wg.Done()
+			for i := range ch {
+				fn(i)
+			}
+		}()
+	}
+	for i := 0; i < items; i++ {
+		ch <- i
+	}
+	close(ch)
+	wg.Wait()
+}
+
 func main() {
+	debug.SetGCPercent(400)
+	c := kit.New("C20", "fault_enumeration")
+	c.Rule = "12 fixed scenarios = (initial store, init flags): empty; Helm-created secrets without data; only a foreign CA secret; CA + server secret lacking ca.crt; TLS secrets without CA secret; CRDs/webhook configurations with missing or stale caBundle plus an old stored version (migrator); fully initialised by a previous real run (same flags / package upgrade); user-edited StoreConfig, DeploymentRuntimeConfig and Lock; Provider/Configuration/Function pre-installed under custom names from sources with and without registry host, with tag, digest, tag+digest or bare. Requested packages cover host/host:port/no-host x tag/digest/tag+digest/bare. Per scenario: runs 1..3 fault-free, and for every API-call index of run 1 (quick: every 3rd index, offset by seed and scenario) x {500, timeout, applied-but-timeout-returned} an aborted run + clean rerun. Oracles O1 state equality, O2 key material kept, O3 x509 chain/key pair/DNS names, O4 one package object per (kind, registry+repository), O5 defaults untouched, O6 every caBundle authenticates the stored server certificate. distinct = (scenario, run | call index, outcome); non-trivial = the initial store is non-empty or the abort fell at a call index > 0 (and the fault was reached). Not generated (debatable under the property): TLS/CA secrets holding only unusable fragments (e.g. only ca.crt, or a CA certificate without key); a repository requested with a registry host while installed without one or vice versa; repositories whose names collide after DNS-label mangling; user-added entries inside webhook configurations."
+	c.Assumptions = []string{
+		"sim implements the apiserver rules of DESIGN.md 2.2; it applies no defaulting, so defaulting-induced differences between run 1 and run n are not observable",
+		"no CRD of the current tree uses webhook conversion: half of the scenarios add one synthetic CRD (widgets.verif.example.org, strategy Webhook) to a temporary copy of VERIF_REPO_DIR/cluster/crds so that the CA injection of CoreCRDs runs",
+		"\"current CA bundle\" is judged semantically: a client trusting exactly the stored caBundle accepts the certificate stored in the webhook TLS secret (crypto/x509), whichever of CA or server certificate the bundle holds",
+		"key material is random (crypto/rand); verdicts do not depend on it",
+	}
+	c.Floor = 100
+
 	d, err := prepareDirs()
 	if err != nil {
-		panic(err)
+		c.Inconclusive("cannot prepare yaml directories under " + repoDir() + ": " + err.Error())
+		c.Finish()
 	}
-	defer d.cleanup()
-	c := chartConfig()
-	c.ConversionCRD = true
-	c.ESSServerSecret = "ess"
-	c.Providers = []string{"xpkg.upbound.io/crossplane-contrib/provider-aws:v2", "crossplane-contrib/provider-gcp:v1"}
-	c = d.apply(c)
-	w := sim.NewWorld(xrk.Scheme(), 1)
-	w.KeepBodies = false
-	w.MustSeed("user", map[string]any{"apiVersion": "pkg.crossplane.io/v1", "kind": "Provider", "metadata": map[string]any{"name": "my-aws"}, "spec": map[string]any{"package": "xpkg.upbound.io/crossplane-contrib/provider-aws:v1"}})
-	w.MustSeed("user", map[string]any{"apiVersion": "pkg.crossplane.io/v1", "kind": "Provider", "metadata": map[string]any{"name": "my-gcp"}, "spec": map[string]any{"package": "crossplane-contrib/provider-gcp:v0@sha256:aaaaaaaaaaaaaaaaaaaaaaaaaaaaaaaaaaaaaaaaaaaaaaaaaaaaaaaaaaaaaaaa"}})
-	f, _ := os.Create("/tmp/c20.prof")
-	for i := 0; i < 8; i++ {
-		if i == 1 {
-			pprof.StartCPUProfile(f)
+	chart := chartConfig()
+	var own, stale *material
+	var e1, e2 error
+	var mg sync.WaitGroup
+	mg.Add(2)
+	go func() {
+		defer mg.Done()
+		own, e1 = newMaterial("A", []string{chart.WebhookSvc, chart.WebhookSvc + "." + chart.WebhookSvcNS, chart.WebhookSvc + "." + chart.WebhookSvcNS + ".svc"}, []string{chart.ServiceAccount + "." + chart.Namespace})
+	}()
+	go func() {
+		defer mg.Done()
+		stale, e2 = newMaterial("stale", []string{"old.example.org"}, []string{"old"})
+	}()
+	mg.Wait()
+	if e1 != nil || e2 != nil {
+		d.cleanup()
+		c.Inconclusive(fmt.Sprintf("cannot generate own key material: %v %v", e1, e2))
+		c.Finish()
+	}
+	bld := &builder{d: d, own: own, stale: stale}
+	var scs []*scenario
+	if err := kit.Try(func() { scs = bld.scenarios(uint64(c.Seed)) }); err != nil {
+		d.cleanup()
+		// the real initializer could not even produce a fully initialised store
+		c.Violate("init-error:building-initial-stores", "setup", err.Error(), nil)
+		c.Finish()
+	}
+
+	workers := runtime.GOMAXPROCS(0)
+	bases := make([]*base, len(scs))
+	parallel(workers, len(scs), func(i int) {
+		sc := scs[i]
+		if !wantScenario(c, sc.Name) {
+			return
 		}
-		t := time.Now()
-		r := runInit(w, c, -1, sim.OK)
-		fmt.Println("run", i, "err", r.Err, "panic", r.Panic, "calls", r.Calls, time.Since(t))
-		if i == 99 {
-			for _, e := range w.Log(r.LogFrom) {
-				fmt.Println(e.Short())
+		c.Count("initial_"+sc.Class, 1)
+		c.Count("scenarios", 1)
+		for _, rq := range sc.Cfg.requested() {
+			c.Count("requested_"+parseRef(rq.Source).Form(), 1)
+		}
+		for _, in := range sc.Installed {
+			c.Count("preinstalled_"+installedClass(in), 1)
+		}
+		if err := kit.Try(func() { bases[i] = sequence(c, sc) }); err != nil {
+			c.Violate("harness-panic:sequence", "scn/"+sc.Name+"/seq", err.Error(), nil)
+		}
+	})
+
+	var cases []faultCase
+	callsPer := map[string]int{}
+	for i, b := range bases {
+		if b == nil || !b.ok {
+			continue
+		}
+		callsPer[b.sc.Name] = b.calls
+		stride, off := 1, 0
+		if !c.Thorough() {
+			stride = 3
+			off = int((c.Seed + int64(i)) % 3)
+			if off < 0 {
+				off += 3
+			}
+		}
+		for k := off; k < b.calls; k += stride {
+			for _, out := range faultOutcomes {
+				fc := faultCase{b: b, k: k, out: out}
+				if c.Want(fc.name()) {
+					cases = append(cases, fc)
+				}
 			}
 		}
 	}
-	pprof.StopCPUProfile()
-	t := time.Now()
-	w2 := w.Clone()
-	fmt.Println("clone", time.Since(t))
-	_ = w2
-	for _, k := range w.Snapshot() {
-		if k["kind"] == "Provider" {
-			fmt.Println(k["metadata"].(map[string]any)["name"], k["spec"])
+	parallel(workers, len(cases), func(i int) {
+		if err := kit.Try(func() { aborted(c, cases[i]) }); err != nil {
+			c.Violate("harness-panic:aborted", cases[i].name(), err.Error(), nil)
 		}
+	})
+	d.cleanup()
+
+	c.Exhaustive(c.Thorough())
+	c.Extra("api_calls_of_first_run", callsPer)
+	names := make([]string, 0, len(scs))
+	for _, s := range scs {
+		names = append(names, s.Name+" ["+s.Class+"]")
 	}
+	sort.Strings(names)
+	c.Extra("scenarios", names)
+	c.Extra("repo_dir", repoDir())
+	if c.Only == "" && len(cases) == 0 {
+		c.Inconclusive("no aborted-run case was executed")
+	}
+	_ = os.Stdout.Sync()
+	c.Finish()
 }
